@@ -2834,7 +2834,9 @@ PSVALUE_STRATA = (
      'psvalue/bin/same', 'psvalue/bin/sub', 'psvalue/bin/subsub', 'psvalue/bin/nested',
      'psvalue/into/disjoint/ok', 'psvalue/into/inplace/ok', 'psvalue/into/alias-swap/ok',
      'psvalue/into/more-parts/ok', 'psvalue/into/fewer-parts/ok', 'psvalue/into/leaf-size/err',
-     'psvalue/into/structure/err', 'psvalue/into/nested', 'psvalue/into/weighted'])
+     'psvalue/into/structure/err', 'psvalue/into/nested', 'psvalue/into/weighted',
+     'psvalue/array/asarray-dtype-float32', 'psvalue/array/asarray-dtype-float64',
+     'psvalue/array/tensor-plus-power'])
 
 
 def run_psvalue(ctx, V, n_random):
@@ -2868,6 +2870,44 @@ def run_psvalue(ctx, V, n_random):
         if ans != r['impl']:
             ctx.disagree(dict(case, line=r['line']), r['impl'], ans, stream='psvalue')
     ctx.extra['psvalue_cases'] = len(cases)
+    # oracle-only stratum (no model): np.asarray(px, dtype=...) and a tensor mixed with a
+    # power-space element must behave like NumPy on px.asarray()
+    L3 = ['L', 'rn', [3]]
+    for spec in (['N', [L3, L3], None], ['N', [['N', [L3, L3], None]] * 2, None],
+                 ['N', [['L', 'discr', 2]] * 3, 2.0]):
+        for form in ('asarray-dtype-float32', 'asarray-dtype-float64', 'tensor-plus-power'):
+            case = {'stream': 'psvalue', 'op': 'array', 'name': form, 'spec': spec, 'vals': None}
+            problems = ps_array_case(case)
+            ctx.case(('psvalue', 'array', form, ps_shape_str(spec)) if not problems else None)
+            ctx.hit('psvalue/array/' + form)
+            for code, text in problems:
+                V.add(ps_key(case, code), text[:400], case)
+
+
+def ps_array_case(case):
+    import odl
+    spec, form = case['spec'], case['name']
+    problems = []
+    try:
+        space = ps_build(spec)
+        x = space.one()
+        ref = x.asarray()
+    except Exception as e:  # noqa
+        return [('case-construction-raised:' + type(e).__name__, exc_desc(e))]
+    if form.startswith('asarray-dtype-'):
+        dt = form[len('asarray-dtype-'):]
+        res = ps_call(lambda: np.asarray(x, dtype=dt))
+        want = ref.astype(dt)
+    else:
+        t = odl.rn(ref.shape).element(2 * ref)
+        res = ps_call(lambda: np.asarray(np.add(t, x)))
+        want = 3 * ref
+    if res[0] == 'err':
+        problems.append(('impl-raised:' + type(res[1]).__name__, exc_desc(res[1])))
+    elif not (res[1].dtype == want.dtype and res[1].shape == want.shape and
+              bool(np.all(res[1] == want))):
+        problems.append(('values', '{!r} vs NumPy {!r}'.format(res[1], want)))
+    return problems
 
 
 def model_branch(c, r, ans):
@@ -3275,6 +3315,9 @@ def replay(ctx, case):
         run_history(ctx, v)
         hits = [w for k, w, d in v.items if d == case]
         return '; '.join(hits) if hits else None
+    if case.get('stream') == 'psvalue' and case.get('op') == 'array':
+        probs = ps_array_case(case)
+        return '; '.join('{}: {}'.format(a, b) for a, b in probs) if probs else None
     if case.get('stream') == 'psvalue':
         try:
             r = ps_run_case(case)
